@@ -915,3 +915,95 @@ M("c13-delete-markers-listed-as-versions", ["C13"], {"C13": ["R13.7"]}, "backend
   """			if version.deleteMarker {
 				marker := &gofakes3.DeleteMarker{""", """			if version.deleteMarker && version == object.data {
 				marker := &gofakes3.DeleteMarker{""")
+
+REVERT("f23-revert-bolt-private-copy", ["C07", "C01"], {"C07": ["L8"], "C01": ["L8"]}, "0017-fix-the-bolt-backend-hands-out-a-private-copy-of-an-.patch")
+
+# ---------------------------------------------------------------- C14
+REVERT("f2-revert-listparts-marker-c14", ["C14"], {"C14": ["R14.1"]}, "0004-fix-list-parts-by-their-real-part-numbers-and-tolera.patch")
+
+M("c14-nextmarker-is-count", ["C14"], {"C14": ["R14.1"]}, "uploader.go",
+  """			result.IsTruncated = true
+			result.NextPartNumberMarker = last
+			break""", """			result.IsTruncated = true
+			result.NextPartNumberMarker = marker + int(cnt)
+			_ = last
+			break""")
+
+M("c14-listparts-truncated-without-marker", ["C14"], {"C14": ["R14.3"]}, "uploader.go",
+  """			result.IsTruncated = true
+			result.NextPartNumberMarker = last
+			break""", """			result.IsTruncated = true
+			if last > marker {
+				result.NextPartNumberMarker = last
+			}
+			break""")
+
+M("c14-uploads-truncated-without-upload-marker", ["C14"], {"C14": ["R14.3"]}, "uploader.go",
+  """				truncated = true
+
+				// This is not especially defensive; it assumes the rest of the code works
+				// as it should. Could be something to clean up later:
+				result.NextUploadIDMarker = iter.Value().([]*multipartUpload)[0].ID
+				result.NextKeyMarker = object""", """				truncated = true
+				result.NextKeyMarker = object""")
+
+M("c14-remove-skips-index", ["C14"], {"C14": ["R14.4"]}, "uploader.go",
+  """	if len(uploads) == 0 {
+		bu.objectIndex.Delete(upload.Object)
+	} else {
+		bu.objectIndex.Set(upload.Object, uploads)
+	}""", """	bu.objectIndex.Set(upload.Object, uploads)""")
+
+M("c14-abort-deletes-map-directly", ["C14"], {"C14": ["R14.4"]}, "uploader.go",
+  """	// if getUnlocked succeeded, so will this:
+	u.buckets[bucket].remove(id)
+
+	return nil
+}""", """	delete(u.buckets[bucket].uploads, id)
+
+	return nil
+}""")
+
+M("c14-uploads-listed-ignoring-prefix-on-retry", ["C14"], {"C14": ["R14.5"]}, "uploader.go",
+  """		matched := prefix.Match(object, &match)
+		if !matched {
+			continue
+		}
+""", """		matched := prefix.Match(object, &match)
+		if !matched && firstFound {
+			continue
+		}
+""")
+
+M("c14-limit-tested-before-increment", ["C14"], {"C14": ["R14.5"]}, "uploader.go",
+  """					cnt++
+					if cnt >= limit {""", """					if cnt >= limit {""", more=[{"file": "uploader.go", "old": """						goto done
+					}
+				}""", "new": """						goto done
+					}
+					cnt++
+				}"""}])
+
+M("c14-max-parts-unclamped", ["C14"], {"C14": ["R14.6"]}, "gofakes3.go",
+  """	maxParts, err := parseClampedInt(query.Get("max-parts"), DefaultMaxUploadParts, 0, MaxUploadPartsLimit)""",
+  """	maxParts, err := parseClampedInt(query.Get("max-parts"), DefaultMaxUploadParts, -1, math.MaxInt64)""")
+
+M("c14-listparts-reads-parts-unlocked", ["C14"], {"C14": ["L2"]}, "uploader.go",
+  """func (u *uploader) ListParts(bucket, object string, uploadID UploadID, marker int, limit int64) (*ListMultipartUploadPartsResult, error) {
+	u.mu.Lock()
+	defer u.mu.Unlock()
+
+	mpu, err := u.getUnlocked(bucket, object, uploadID)
+	if err != nil {
+		return nil, err
+	}
+""", """func (u *uploader) ListParts(bucket, object string, uploadID UploadID, marker int, limit int64) (*ListMultipartUploadPartsResult, error) {
+	u.mu.Lock()
+	mpu, err := u.getUnlocked(bucket, object, uploadID)
+	u.mu.Unlock()
+	if err != nil {
+		return nil, err
+	}
+	mpu.mu.Lock()
+	defer mpu.mu.Unlock()
+""")
